@@ -143,8 +143,13 @@ def default_ret(ty, devs=None):
 
 
 # ----------------------------------------------------------------------------- the world
+CURRENT = None        # the World of this process (one per worker)
+
+
 class World:
     def __init__(s, mir_micro, mir_vdev, repo_src):
+        global CURRENT
+        CURRENT = s
         s.enums = read_enums(repo_src)
         s.ex = Engine(s.enums)
         s.ex.std_world = 'std' in os.path.basename(mir_micro)      # MIR of the std-feature build: heap models allowed
@@ -170,8 +175,50 @@ class World:
         d = s.devices[name]
         fields = [Rec()]
         if d.get('queue') is not None:
-            fields.append(Adt('StaticErrorQueue', None, [Deque(d['queue'])]))
+            fields.append(s.new_queue(d['queue']))
         return Adt(name, None, fields)
+
+    def _queue_fn(s, method):
+        ex = s.ex
+        if ex.impl_index is None:
+            ex.build_impl_index()
+        for f in ex.impl_index.get(method, []):
+            sig = f.ret if method == 'new' else (f.params[0][1] if f.params else '')
+            if 'StaticErrorQueue' in sig and f.crate == 'microscpi':
+                return f
+        return None
+
+    def new_queue(s, cap):
+        """the queue is built by the real constructor (StaticErrorQueue::<N>::new from MIR), whatever its representation is"""
+        f = s._queue_fn('new')
+        if f is not None:
+            try:
+                return s.ex.call_fn(f, [], Env({'N': str(cap)}))
+            except Unsupported:
+                pass
+        q = Adt('StaticErrorQueue', None, [Deque(cap)])
+        return q
+
+    def queue_items(s, dev):
+        """stored errors, oldest first, without changing the device: directly for the Deque representation, otherwise by draining a copy
+        through the real pop_error"""
+        if len(dev.f) < 2:
+            return None
+        q = dev.f[1]
+        if q.f and isinstance(q.f[0], Deque) and len(q.f) == 1:
+            return list(q.f[0].items)
+        pop = s._queue_fn('pop_error')
+        if pop is None:
+            raise Unsupported('error queue representation unknown and no pop_error in the dump')
+        qc = copy_val(q)
+        cap = s.devices.get(dev.ty, {}).get('queue')
+        items = []
+        for _ in range(64):
+            r = s.ex.call_fn(pop, [Ref([qc], 0)], Env({'N': str(cap)}))
+            if r.variant != 'Some':
+                return items
+            items.append(r.f[0])
+        raise Unsupported('error queue does not drain')
 
     def _dev_new(s, ex, fn, args, env):
         raise Unsupported('device constructors are not executed')
